@@ -153,6 +153,18 @@ def m_checked(ex, st, callee, args):
             return [(None, Sc(ty, res))]
         if mode == "overflowing":
             return [(None, Adt("()", None, [Sc(ty, res), Sc("bool", ovf)]))]
+        if mode == "saturating":
+            # clamp to the bound the exact result runs past: for add/sub the sign of b decides, for mul the sign of the exact product
+            lo, hi = z3.BitVecVal(int_min(ty), bits), z3.BitVecVal(int_max(ty), bits)
+            if not signed:
+                bound = hi if op in ("add", "mul") else lo
+            elif op == "add":
+                bound = z3.If(b.e < 0, lo, hi)
+            elif op == "sub":
+                bound = z3.If(b.e < 0, hi, lo)
+            else:
+                bound = z3.If((a.e < 0) != (b.e < 0), lo, hi)
+            return [(None, Sc(ty, z3.If(ovf, bound, res)))]
         raise Inconclusive(callee)
     if op in ("div", "rem"):
         zero = b.e == 0
@@ -172,6 +184,19 @@ def m_checked(ex, st, callee, args):
         if mode == "wrapping":
             return [(None, val)]
     raise Inconclusive(callee)
+
+
+_minmax_re = re.compile(r"^(?:std|core)::cmp::(min|max)::<(%s)>$|^<(%s) as Ord>::(min|max)$" % (INT, INT))
+
+
+def m_minmax(ex, st, callee, args):
+    m = _minmax_re.match(callee)
+    fn = m.group(1) or m.group(4)
+    ty = m.group(2) or m.group(3)
+    _, signed = INT_TYPES[ty]
+    a, b = scalar(ex, st, args[0]), scalar(ex, st, args[1])
+    lt = (a.e < b.e) if signed else z3.ULT(a.e, b.e)
+    return [(None, Sc(ty, z3.If(lt, a.e, b.e) if fn == "min" else z3.If(lt, b.e, a.e)))]
 
 
 _euclid_re = re.compile(r"^core::num::<impl (%s)>::(checked_)?(rem|div)_euclid$" % INT)
@@ -876,6 +901,7 @@ def base_models():
     m.add(_checked_re.pattern, m_checked)
     m.add(_abs_re.pattern, m_abs)
     m.add(_euclid_re.pattern, m_euclid)
+    m.add(_minmax_re.pattern, m_minmax)
     m.add(_tryinto_re.pattern, m_tryinto)
     m.add(_from_re.pattern, m_from)
     m.add(_f64_re.pattern, m_f64)
